@@ -5,6 +5,12 @@ G12 == {"g1", "g2"}
 MCCfgStrictOnce   == [g \in Gangs |-> [min |-> IF g = "g1" THEN 2 ELSE 1, strict |-> TRUE,  policy |-> "once",    group |-> G12]]
 MCCfgStrictWait   == [g \in Gangs |-> [min |-> IF g = "g1" THEN 2 ELSE 1, strict |-> TRUE,  policy |-> "waiting", group |-> G12]]
 MCCfgLooseWaitRun == [g \in Gangs |-> [min |-> IF g = "g1" THEN 2 ELSE 1, strict |-> FALSE, policy |-> "waitrun", group |-> G12]]
+\* pod-group updates: the settings of a gang change while its members are in flight
+G1 == {"g1"}
+PgChoices == {[min |-> m, strict |-> st, policy |-> po, group |-> gr] :
+                 m \in {1, 2}, st \in BOOLEAN, po \in {"waiting", "waitrun"}, gr \in {G1, G12}}
+NextPg == Next \/ \E c \in PgChoices : PgSet("g1", c) /\ c # Cfg["g1"]
+SpecPg == InitWith(MCGangOf, MCCfgStrictWait) /\ [][NextPg]_vars
 SpecStrictOnce == SpecWith(MCGangOf, MCCfgStrictOnce)
 SpecStrictWait == SpecWith(MCGangOf, MCCfgStrictWait)
 SpecLooseWaitRun == SpecWith(MCGangOf, MCCfgLooseWaitRun)
